@@ -72,6 +72,14 @@ M = {
  "c19-no-base64": ("actions/http-push-streamer.go", "payload64 := base64.StdEncoding.EncodeToString(del.Payload)", "payload64 := string(del.Payload); _ = base64.StdEncoding"),
  "c19-window-1000": ("actions/http-push-streamer.go", "\t\tmaxMessages:      1,", "\t\tmaxMessages:      1000,"),
  "c19-204-nack": ("actions/http-push-streamer.go", "http.StatusAccepted, http.StatusNoContent:", "http.StatusAccepted:"),
+ "c04-split-tx": ("actions/get-subscription-messages.go", """\t\t\tif len(deliveries) != 0 || timerTx != nil && timerTx.Dialect() == dialect.SQLite {
+\t\t\t\tif err = a.applyResults(ctx, tx, sub, deliveries); err != nil {
+\t\t\t\t\treturn err
+\t\t\t\t}
+\t\t\t\ttimer.Succeeded(func() { getSubscriptionMessagesCounter.Add(float64(len(a.results.Deliveries))) })
+\t\t\t} else {""", """\t\t\tif len(deliveries) != 0 || timerTx != nil && timerTx.Dialect() == dialect.SQLite {
+\t\t\t\tsplit = deliveries
+\t\t\t} else {"""),
 }
 def main():
     name, checks = sys.argv[1], sys.argv[2].split(",")
@@ -81,7 +89,11 @@ def main():
     s = open(p).read()
     if old not in s:
         print("PATTERN NOT FOUND", name); sys.exit(3)
-    open(p, "w").write(s.replace(old, new, 1))
+    s2 = s.replace(old, new, 1)
+    if name == "c04-split-tx":
+        s2 = s2.replace("\t\terr := runTx(func(tx *ent.Tx) error {\n\t\t\t// re-check the sub before we query it", "\t\tvar split []*ent.Delivery\n\t\terr := runTx(func(tx *ent.Tx) error {\n\t\t\t// re-check the sub before we query it", 1)
+        s2 = s2.replace("\t\tif err != nil {\n\t\t\ttimer.ReportRollback()\n\t\t\treturn err\n\t\t}\n\t\tif a.results != nil {", "\t\tif err == nil && split != nil {\n\t\t\terr = runTx(func(tx *ent.Tx) error { return a.applyResults(ctx, tx, sub, split) })\n\t\t}\n\t\tif err != nil {\n\t\t\ttimer.ReportRollback()\n\t\t\treturn err\n\t\t}\n\t\tif a.results != nil {", 1)
+    open(p, "w").write(s2)
     try:
         for c in checks:
             r = subprocess.run(["/verif/check", c] + extra, capture_output=True, text=True)
